@@ -5,6 +5,7 @@ package supervisor
 import (
 	"fmt"
 	"math/rand"
+	"os"
 	"sort"
 	"strings"
 	"testing"
@@ -67,6 +68,14 @@ func (b c20Block) String() string {
 		al[i] = c20StateOf(c).String()
 	}
 	return fmt.Sprintf("%d name(s) x states {%s} x exactly %d snapshot(s) = %d sequences", b.Names, strings.Join(al, ","), b.Len, b.size())
+}
+
+// c20ReplayOfAnotherPart: ./check --replay sets VERIF_ONLY=<part>:<case> for every part;
+// the parts it does not name have nothing to do.
+func c20ReplayOfAnotherPart(t *testing.T) bool {
+	v := os.Getenv("VERIF_ONLY")
+	i := strings.LastIndex(v, ":")
+	return v != "" && i >= 0 && v[:i] != t.Name()
 }
 
 // c20Stuck is set when a barrier watchdog fired: the remaining cases of the process are
@@ -190,6 +199,9 @@ func c20RequireAll(r *kit.Run) {
 
 // TestVerif_C20_Exhaustive enumerates finite spaces of snapshot sequences completely.
 func TestVerif_C20_Exhaustive(t *testing.T) {
+	if c20ReplayOfAnotherPart(t) {
+		t.Skip("replaying a case of another part")
+	}
 	r := kit.Start(t, "C20")
 	defer r.Finish()
 	blocks := []c20Block{
@@ -200,7 +212,7 @@ func TestVerif_C20_Exhaustive(t *testing.T) {
 	if r.Thorough() {
 		blocks = append(blocks,
 			c20Block{2, c20Full, 3},
-			c20Block{3, c20Full, 2},
+			c20Block{3, []int{0, 1, 2, 4, 5}, 2}, // 3 names x {-,A1,A2,B1,B2}
 			c20Block{3, []int{0, 1, 4}, 3}, // appear / disappear / kind change / unchanged across 3 names
 			c20Block{3, []int{0, 1, 2}, 3}, // appear / disappear / spec change / unchanged across 3 names
 		)
@@ -275,10 +287,13 @@ func c20RandomSeq(rng *rand.Rand, length int) []c20Snapshot {
 
 // TestVerif_C20_Sampled: seeded sequences of 4..8 snapshots over all 3 names.
 func TestVerif_C20_Sampled(t *testing.T) {
+	if c20ReplayOfAnotherPart(t) {
+		t.Skip("replaying a case of another part")
+	}
 	r := kit.Start(t, "C20")
 	defer r.Finish()
 	r.Rule("seeded random sequences of 4..8 snapshots over 3 names x (absent | 2 kinds x 3 variants), biased towards unchanged / variant change / kind change of live names; same oracle as the enumerated part")
-	n := r.N(500, 12000)
+	n := r.N(500, 6000)
 	for i := 0; i < n; i++ {
 		if !r.Mine(i) {
 			continue
@@ -296,6 +311,9 @@ func TestVerif_C20_Sampled(t *testing.T) {
 
 // TestVerif_C20_Panics: scripted panics in Init / Inherit / Close.
 func TestVerif_C20_Panics(t *testing.T) {
+	if c20ReplayOfAnotherPart(t) {
+		t.Skip("replaying a case of another part")
+	}
 	r := kit.Start(t, "C20")
 	defer r.Finish()
 	block := c20Block{2, c20Full, 2}
@@ -321,7 +339,7 @@ func TestVerif_C20_Panics(t *testing.T) {
 	}
 	r.Note("enumerated panic space: %d (sequence, name, k) triples", i)
 	base := 1000000
-	n := r.N(300, 12000)
+	n := r.N(300, 6000)
 	for j := 0; j < n; j++ {
 		i := base + j
 		if !r.Mine(i) {
